@@ -74,7 +74,7 @@ impl Prop for C08 {
         fn me(n: usize) -> usize {
             n * 3
         }
-        let small = graph_strategy(&ALL_KINDS, 2, 10, me, &[0, 1, 3, 3], 4);
+        let small = graph_strategy(&ALL_KINDS, 2, 10, me, &[0, 1, 3, 3, 5, 6], 4);
         let large = graph_strategy(&ALL_KINDS, 21, 26, me, &[0, 3], 3);
         (prop_oneof![40 => small, 1 => large], any::<u64>()).prop_map(|(g, sel)| OptCase { g, sel }).boxed()
     }
